@@ -14,15 +14,24 @@ impl<K: SimKey, S: HB> TwoQSubj<K, S> {
     pub fn construct(h: &Header) -> Result<Self, String> {
         let size = h.sizes[0];
         let (rr, gr) = (h.ratios[0], h.ratios[1]);
-        let b = TwoQueueCacheBuilder::new(size)
-            .set_recent_ratio(rr)
-            .set_ghost_ratio(gr)
-            .set_recent_hasher(S::make(&h.hashers[0]))
-            .set_frequent_hasher(S::make(&h.hashers[1]))
-            .set_ghost_hasher(S::make(&h.hashers[2]));
+        // two setter orders, so that a setter that forgets to carry a field over is observable
         let r = match h.ctor {
-            0 => lib!(b.finalize::<K, TV>()),
-            _ => lib!(TwoQueueCache::from_builder(b)),
+            0 => lib!(TwoQueueCacheBuilder::new(size)
+                .set_recent_ratio(rr)
+                .set_ghost_ratio(gr)
+                .set_recent_hasher(S::make(&h.hashers[0]))
+                .set_frequent_hasher(S::make(&h.hashers[1]))
+                .set_ghost_hasher(S::make(&h.hashers[2]))
+                .finalize::<K, TV>()),
+            _ => lib!(TwoQueueCache::from_builder(
+                TwoQueueCacheBuilder::default()
+                    .set_ghost_hasher(S::make(&h.hashers[2]))
+                    .set_frequent_hasher(S::make(&h.hashers[1]))
+                    .set_recent_hasher(S::make(&h.hashers[0]))
+                    .set_ghost_ratio(gr)
+                    .set_recent_ratio(rr)
+                    .set_size(size)
+            )),
         };
         r.map(|c| TwoQSubj { c: Some(c) }).map_err(|e| format!("{:?}", e))
     }
